@@ -231,6 +231,38 @@ def m_generate(v, n):            # generate(1, 2: $ < b, 3: $ + 1, 4: $)
     return log
 
 
+def m_generate_select(v, n):     # generate(1, 2: $ < b, 3: $ + 1, 4: $).select(5: $): the producer runs on resumption
+    log = [1]
+    x = v['a']
+    while True:
+        log.append(2)
+        if not x < v['b']:
+            break
+        log += [4, 5, 3]
+        x += 1
+    return log
+
+
+def m_generate_take(v, n):       # generate(1, 2, 3, 4).take(5: 2): nothing is produced beyond the elements consumed
+    log = [1, 5]
+    x = v['a']
+    got = 0
+    while got < 2:
+        if got:
+            log.append(3)
+            x += 1
+        log.append(2)
+        if not x < v['b']:
+            break
+        log.append(4)
+        got += 1
+    return log
+
+
+def m_generate_first(v, n):      # generate(1, 2, 3, 4).first(5: null)
+    return [1, 5, 2] + ([4] if v['a'] < v['b'] else [])
+
+
 def m_generate_many(v, n):       # generateMany(1, 2: [$+1].where($ < b), 3: $)
     log = [1]
     x = v['a']
@@ -585,6 +617,10 @@ def lazy_catalogue(quick=True):
         llen=2, mlen=1 if quick else 2)
     add(['generate'], 'generate', 'ab', 'generate(%s, %s, %s, %s)' % (v(1), p(2, '$ < $b'), p(3, '$ + 1'), p(4, '$')),
         'generate', 4, amin=0, amax=3 if quick else 5)
+    gen = 'generate(%s, %s, %s, %s)' % (v(1), p(2, '$ < $b'), p(3, '$ + 1'), p(4, '$'))
+    add([], 'generate.select', 'ab', '%s.select(%s)' % (gen, p(5, '$')), 'generate_select', 5, amin=0, amax=3)
+    add([], 'generate.take', 'ab', '%s.take(%s)' % (gen, p(5, '2')), 'generate_take', 5, amin=0, amax=3)
+    add([], 'generate.first', 'ab', '%s.first(%s)' % (gen, p(5, 'null')), 'generate_first', 5, amin=0, amax=3)
     add(['generateMany'], 'generateMany', 'ab',
         'generateMany(%s, %s, %s)' % (v(1), p(2, '[$ + 1].where($ < $b)'), p(3, '$')), 'generate_many', 3,
         amin=0, amax=2 if quick else 4)
